@@ -1,6 +1,7 @@
 package file
 
 import (
+	"io"
 	"os"
 	"sync"
 
@@ -14,7 +15,18 @@ var verifSeekPos int64 = -1
 // replaces (*os.File).Seek: records where reading resumes
 func verifStubSeek(f *os.File, offset int64, whence int) (int64, error) {
 	verifSeekPos = offset
+	if whence == 0 {
+		verifPos = int(offset) // the "file" of c06.go
+	}
 	return offset, nil
+}
+
+// replaces (*os.File).Read for a position that may lie beyond the end of the (shrunk) file
+func verifStubReadAt(f *os.File, b []byte) (int, error) {
+	if verifPos >= verifAvail {
+		return 0, io.EOF
+	}
+	return verifStubRead(f, b)
 }
 
 type verifLine struct {
@@ -83,6 +95,7 @@ func VerifH_C03_resume() {
 	job2 := &Job{file: new(os.File), sourceID: 7, filename: "f", inode: 7, mu: &sync.Mutex{}}
 	jp2.jobs[7] = job2
 	verifSeekPos = -1
+	verifStart, verifAvail = 0, int(pos) // the file still holds every line
 	jp2.initEofInfo(job2) // as addJob does before positioning the job
 	jp2.initJobOffset(offsetsOpContinue, job2)
 	vf.Assert(verifSeekPos >= 0, "resume-seeks")
@@ -152,4 +165,100 @@ func VerifH_C03_truncate() {
 	off, _ = job.offsets.Get("s")
 	vf.Assert(off == 6, "new-lines-commit-from-the-start")
 	vf.Reach("truncated-and-restarted")
+}
+
+// C03.H3: truncation while running on a file with two streams, then a kill: a line written after
+// the truncation on one stream and not yet acknowledged is read again after the restart even if a
+// later line of the other stream was acknowledged and persisted.
+func VerifH_C03_truncateTwoStreamsThenKill() {
+	jp := verifNewProvider()
+	jp.offsetDB = newOffsetDB("offsets.yaml", "offsets.tmp")
+	job := &Job{file: new(os.File), sourceID: 7, filename: "f", inode: 7, mu: &sync.Mutex{}}
+	jp.jobs[7] = job
+	// before the truncation both streams have commits
+	jp.commit(pipeline.VerifNewEvent(7, 10, 1, "stdout"))
+	jp.commit(pipeline.VerifNewEvent(7, 20, 2, "stderr"))
+	job.lastEventSeq = 2
+	jp.truncateJob(job)
+	// after it: a stdout line ending at 3 (not acknowledged yet), a stderr line ending at 6 (acknowledged)
+	jp.commit(pipeline.VerifNewEvent(7, 6, 4, "stderr"))
+	// kill; what a save at this moment persists is the job's offsets
+	loaded := fpOffsets{7: &inodeOffsets{streams: map[pipeline.StreamName]int64{}, sourceID: 7, filename: "f"}}
+	for _, so := range job.offsets {
+		loaded[7].streams[so.Stream] = so.Offset
+	}
+	jp2 := verifNewProvider()
+	jp2.loadedOffsets = loaded
+	job2 := &Job{file: new(os.File), sourceID: 7, filename: "f", inode: 7, mu: &sync.Mutex{}}
+	jp2.jobs[7] = job2
+	verifSeekPos = -1
+	verifStart, verifAvail = 0, 6
+	jp2.initEofInfo(job2)
+	jp2.initJobOffset(offsetsOpContinue, job2)
+	plugin := &Plugin{jobProvider: jp2}
+	passed := verifSeekPos >= 0 && 3 > verifSeekPos && plugin.PassEvent(pipeline.VerifNewEvent(7, 3, 1, "stdout"))
+	if vf.Param("twin", 0) == 1 {
+		vf.Assert(!passed, "unacknowledged-line-written-after-truncation-is-delivered-after-restart")
+		return
+	}
+	vf.Assert(passed, "unacknowledged-line-written-after-truncation-is-delivered-after-restart")
+	vf.Reach("restarted-after-truncation")
+}
+
+// C03.H4: the file was truncated and rewritten (shorter than the saved offset) while file.d was
+// down: after the restart the truncation is noticed at the first end-of-file and the new content is
+// read from the start and not mistaken for already committed data.
+func VerifH_C03_truncatedWhileDown() {
+	saved := int64(5 + vf.Choose("saved-offset", 3))
+	n := 1 + vf.Choose("new-size", 4) // < saved
+	content := verifShaped("content", n)
+	bufSize := 1 + vf.Choose("buf", vf.Param("B", 3))
+	jp := verifNewProvider()
+	jp.loadedOffsets = sliceOfLoaded(7, "s", saved)
+	job := &Job{file: new(os.File), sourceID: 7, filename: "f", inode: 7, mu: &sync.Mutex{}}
+	jp.jobs[7] = job
+	verifContent, verifPos, verifAvail, verifStart, verifReads = content, 0, n, 0, 0
+	verifSeekPos = -1
+	jp.initEofInfo(job)
+	jp.initJobOffset(offsetsOpContinue, job)
+	rec := &verifRec{}
+	w := &worker{}
+	for round := 0; round < 2; round++ {
+		if round == 1 {
+			if !job.isDone {
+				break
+			}
+			job.mu.Lock()
+			jp.tryResumeJobAndUnlock(job, "f") // the maintenance loop sees data past the job's position
+		} else {
+			jp.jobsChan <- job
+		}
+		jp.jobsChan <- nil
+		w.work(rec, jp, bufSize, nil)
+	}
+	plugin := &Plugin{jobProvider: jp}
+	want, _, _ := verifRefLines(content, 0, 0, false, false)
+	var got []verifCall
+	for _, c := range rec.calls {
+		if len(c.data) > 1 {
+			got = append(got, c)
+		}
+	}
+	if vf.Param("twin", 0) == 1 {
+		vf.Assert(len(got) != len(want), "content-written-after-the-truncation-is-read")
+		return
+	}
+	vf.Assert(len(got) == len(want), "content-written-after-the-truncation-is-read")
+	if len(got) != len(want) {
+		return
+	}
+	for i := range want {
+		vf.Assert(got[i].off == want[i].off && vf.SameBytes(got[i].data, want[i].data), "new-line-with-its-offset")
+		vf.Assert(plugin.PassEvent(pipeline.VerifNewEvent(7, got[i].off, uint64(100+i), "s")), "new-line-not-mistaken-for-committed")
+		vf.Reach("new-content-delivered")
+	}
+}
+
+func sliceOfLoaded(id pipeline.SourceID, stream string, off int64) fpOffsets {
+	return fpOffsets{id: &inodeOffsets{streams: map[pipeline.StreamName]int64{pipeline.StreamName(stream): off}, sourceID: id, filename: "f"}}
 }
